@@ -200,8 +200,10 @@ impl Check for C02 {
     }
     fn families(&self, tier: Tier) -> Vec<Family<'_>> {
         let layouts = tier.pick(3, 5);
-        let cfg = GenCfg::default();
+        // (`deprecated` with and without a reason is one of the typed attributes)
+        let cfg = GenCfg { deprecated: true, ..GenCfg::default() };
         let cfg2 = GenCfg {
+            deprecated: true,
             max_files: 4,
             max_defs: 14,
             max_members: 6,
